@@ -103,6 +103,22 @@ def index (s : CS) (pos : Int) : Option Nat :=
     else if offset ≥ s.writePos then none
     else goGet s.elements (offset - size)
 
+/-- `*s.IndexRef(pos) = v`: a store through the returned pointer (same path as `index`). -/
+def indexSet (s : CS) (pos : Int) (v : Nat) : Option CS :=
+  if pos < 0 then none
+  else
+    let size : Int := s.elements.length
+    let offset := s.readPos + pos
+    if offset < size then
+      match goSet s.elements offset v with
+      | none => none
+      | some els => some ⟨els, s.readPos, s.writePos⟩
+    else if offset ≥ s.writePos then none
+    else
+      match goSet s.elements (offset - size) v with
+      | none => none
+      | some els => some ⟨els, s.readPos, s.writePos⟩
+
 /-- `PopFront`: `(element, new state)`. -/
 def popFront (s : CS) : Option (Nat × CS) :=
   if s.writePos = s.readPos then none
@@ -145,6 +161,8 @@ inductive QOp where
   | pop
   | front
   | index (pos : Int)
+  /-- `*s.IndexRef(pos) = v` -/
+  | indexSet (pos : Int) (v : Nat)
   | reserve (n : Int)
   | clear
   | swap
@@ -173,6 +191,9 @@ def apply (st : CS × CS) : QOp → (CS × CS) × QObs
     | some (x, s') => ((s', st.2), .val x)
   | .front => (st, match st.1.front with | none => .panic | some x => .val x)
   | .index pos => (st, match st.1.index pos with | none => .panic | some x => .val x)
+  | .indexSet pos v => match st.1.indexSet pos v with
+    | none => (st, .panic)
+    | some s' => ((s', st.2), .done)
   | .reserve n => match st.1.reserve n with
     | none => (st, .panic)
     | some s' => ((s', st.2), .done)
